@@ -215,3 +215,20 @@ func LibGoroutinesAlive(s *simrt.Sim, createdIn ...string) []simrt.GInfo {
 func rawClosed(ch <-chan struct{}) bool { return simrt.IsClosedRaw(ch) }
 
 func nopLogger() watermill.LoggerAdapter { return watermill.NopLogger{} }
+
+// LibGoroutinesCreatedBy lists live goroutines whose go statement was executed by exactly the named function(s) (suffix match).
+func LibGoroutinesCreatedBy(s *simrt.Sim, fnSuffix ...string) []simrt.GInfo {
+	var out []simrt.GInfo
+	for _, g := range s.Goroutines() {
+		if g.State == "exited" || g.Harness || g.Daemon || g.Lazy {
+			continue
+		}
+		for _, suf := range fnSuffix {
+			if strings.HasSuffix(g.Created, suf) {
+				out = append(out, g)
+				break
+			}
+		}
+	}
+	return out
+}
